@@ -175,7 +175,8 @@ impl Engine for MachineEngine {
                 }
                 let (r, w) = (rw.contains('r'), rw.contains('w'));
                 m!().stream.written.clear();
-                let res = guard(|| m!().event(Machine::token_stream(), r, w));
+                // an `h` in the letters: the event also carries the hang-up readiness
+                let res = if rw.contains('h') { guard(|| m!().event_hup(Machine::token_stream(), r, w)) } else { guard(|| m!().event(Machine::token_stream(), r, w)) };
                 if w {
                     out.push(format!("wrote {}", hex(&m!().stream.written)));
                 }
